@@ -138,6 +138,9 @@ counters!(
     runs_longhistory,
     runs_marathon,
     runs_relative_path,
+    one_shot_planned,
+    one_shot_reopened,
+    loads_refused_drained_source,
     runs_link_chain,
     chdir_ops,
     loads_naming_the_other_directory,
@@ -348,6 +351,8 @@ pub struct Fired {
     pub denied: bool,
     pub replace: Option<(usize, usize, usize)>, // from, to, offset
     pub short_reads: u32,
+    /// A one-shot source was opened again and had nothing left.
+    pub drained_reopen: bool,
 }
 
 impl Fired {
@@ -578,6 +583,16 @@ impl World {
                     self.ctr.inc(C::open_denied_fired);
                     self.log.byte(b'D');
                     return Err(k.to_error());
+                }
+                // A source that can be read once has nothing left for a second open.
+                // (Only where the first pass could not have failed on the content itself: a loader
+                // that re-opens to RETRY after an error is not what is judged here, see gen_plan.)
+                let first_pass_clean = a.bound.first().map(|&i| self.ctx.images[i].raw.is_none()).unwrap_or(false);
+                if a.plan.one_shot && a.opens >= 2 && first_pass_clean {
+                    a.fired.drained_reopen = true;
+                    self.ctr.inc(C::one_shot_reopened);
+                    self.log.byte(b'1');
+                    return Ok(Box::new(io::empty()));
                 }
                 // The updater wins the race against this very open call: whatever the loader
                 // learnt about the path before (its size, say) describes the previous file.
@@ -1454,6 +1469,7 @@ impl Sim {
                         );
                         w.ctr.add(C::open_fail_planned, plan.open_fail.is_some() as u64);
                         w.ctr.add(C::replace_mid_planned, plan.replace_at.is_some() as u64);
+                        w.ctr.add(C::one_shot_planned, plan.one_shot as u64);
                         if w.deny.is_some() {
                             w.ctr.inc(C::load_while_denied);
                         }
@@ -1633,6 +1649,10 @@ impl Sim {
                                     // A rendering with liberties of debatable status: refusing it
                                     // is not a wrong answer.
                                     w.ctr.inc(C::loads_refused_lenient_format);
+                                } else if fired.drained_reopen {
+                                    // The loader opened a read-once source a second time and found
+                                    // it drained: refusing (the two reads differ) is not a wrong answer.
+                                    w.ctr.inc(C::loads_refused_drained_source);
                                 } else if fired.replace.is_some() || changed_by_others || sc.stat_lies != 0 {
                                     // The file changed while it was being loaded, or `stat`
                                     // disagrees with the content: a loader that notices (reads
@@ -1661,6 +1681,7 @@ impl Sim {
                                 if !fired.any_error_like()
                                     && candidates.iter().all(|&c| ctx.images[c].strict)
                                     && fired.replace.is_none()
+                                    && !fired.drained_reopen
                                     && !changed_by_others
                                     && sc.stat_lies == 0
                                 {
@@ -1883,6 +1904,9 @@ pub fn describe_fired(f: &Fired) -> String {
     }
     if f.short_reads > 0 {
         parts.push(format!("{} short reads", f.short_reads));
+    }
+    if f.drained_reopen {
+        parts.push("a read-once source opened again (nothing left)".to_string());
     }
     if parts.is_empty() {
         "nothing".to_string()
